@@ -265,6 +265,13 @@ func runSeq(c core.Case, prop string, reopen bool) core.Result {
 		drawCfg = gen.ConfigWide
 	}
 	d.cfg = drawCfg(r)
+	if l0 := int(c.Int("l0", -1)); l0 >= 0 {
+		// wide cases walk through the L0 widths; a wide L0 needs many flushes to fill
+		d.cfg.L0TargetNum = l0
+		if l0 >= 8 {
+			d.cfg.MemtableByteThreshold = []int{1, 64, 300, 1000}[r.Intn(4)]
+		}
+	}
 	if reopen && c.Str("delay", "") == "slow-flusher" {
 		// Close with several memtables still waiting IN the flush queue needs room in the queue
 		d.cfg.ImmutableBuffer = []int{2, 4, 8}[r.Intn(3)]
@@ -557,6 +564,7 @@ func genSeq(tier string, seed int64, prop string, nQuick, nThorough int) []core.
 			c.N["pathspell"] = 1
 		}
 		if i%8 == 7 {
+			c.N["l0"] = []int64{8, 0, 12, 2}[(i/8)%4]
 			c.N["wide"] = 1 // configuration drawn from the wide range (zero values = defaults, large geometry)
 			if c.N["big"] == 0 {
 				c.N["txns"] = int64(200 + r.Intn(400))
@@ -570,7 +578,7 @@ func genSeq(tier string, seed int64, prop string, nQuick, nThorough int) []core.
 func init() {
 	core.Register(&core.Check{
 		Prop: "C01", Level: "exploration",
-		Rule:      "case = one single-client program of 60-400 transactions (1-4 Set/Delete each; hostile, windowed, long, binary keys; unique values of 0..5000 bytes, 64KiB..1MiB in every twelfth case) against a database with tiny random thresholds (memtable 1..4096 B, block 1..4096 B, L0 target and ratio 1..3, flush queue 0..4), drain policy always/never/random, delay profile none/jitter/slow-flusher/slow-commit/slow-rotate at the schedule points; every eighth case draws its configuration from the wide range instead (zero values = the engine's defaults, memtable and block thresholds up to 64 KiB, block above memtable threshold, L0 target up to 6, ratio up to 10, flush queue up to 16, skiplist height up to 32); after every commit the written keys and 3 others are read, every 20 commits and at the end (before and after a drain) all keys; oracle = map updated at each acknowledged commit, mismatches classified lost/stale/resurrected/alien/corrupt; every real compaction is also judged in situ by the C09 oracle; non-trivial = >=1 flush, >=1 compaction and >=1 read answered by a table; distinct by case parameters",
+		Rule:      "case = one single-client program of 60-400 transactions (1-4 Set/Delete each; hostile, windowed, long, binary keys; unique values of 0..5000 bytes, 64KiB..1MiB in every twelfth case) against a database with tiny random thresholds (memtable 1..4096 B, block 1..4096 B, L0 target and ratio 1..3, flush queue 0..4), drain policy always/never/random, delay profile none/jitter/slow-flusher/slow-commit/slow-rotate at the schedule points; every eighth case draws its configuration from the wide range instead (zero values = the engine's defaults, memtable and block thresholds up to 64 KiB, block above memtable threshold, L0 target up to 12, ratio up to 10, flush queue up to 16, skiplist height up to 32); after every commit the written keys and 3 others are read, every 20 commits and at the end (before and after a drain) all keys; oracle = map updated at each acknowledged commit, mismatches classified lost/stale/resurrected/alien/corrupt; every real compaction is also judged in situ by the C09 oracle; non-trivial = >=1 flush, >=1 compaction and >=1 read answered by a table; distinct by case parameters",
 		Gen:       func(tier string, seed int64) []core.Case { return genSeq(tier, seed, "C01", 96, 800) },
 		Run:       func(c core.Case) core.Result { return runSeq(c, "C01", false) },
 		BatchSize: 4, GoMaxProcs: 2, Parallel: 8,
